@@ -8,6 +8,8 @@ mod accept {
 }
 mod availability {
     include!("/repo/actix-server/src/availability.rs");
+    /// raw words, for state snapshots (the accessor functions themselves are under test)
+    #[cfg(feature = "drv")] pub(crate) fn raw(a: &Availability) -> [u128; 4] { a.0 }
     /// native replay of an engine-S counterexample on the real module
     #[cfg(feature = "drv")]
     pub(crate) fn drv(line: &str) -> String {
